@@ -159,6 +159,30 @@ func (c *C17Case) Run() string {
 		case "getset":
 			g := &C01Case{DT: d.Name, Shape: c.Shape, L: lay, Base: c.Scalar}
 			msg = g.Run()
+		case "write":
+			wl := lay
+			if !c.Iter {
+				wl = Layout{Root: "rm", Steps: []LStep{{Op: "slice", Lo: append([]int{1}, make([]int, len(c.Shape)-1)...), Hi: make([]int, len(c.Shape)), Step: ones(len(c.Shape))}}}
+			}
+			wc := &C04Write{DT: d.Name, A: Opnd{Shape: c.Shape, Codes: c.A, L: wl}, Write: c.Op, Code: 1 + c.Scalar%50}
+			msg = wc.Run()
+		case "mat64":
+			if !d.IsInt() && !d.IsFloat() {
+				continue
+			}
+			mc := &C04Copy{DT: d.Name, A: Opnd{Shape: c.Shape, Codes: c.A, L: lay}, Op: "ToMat64"}
+			msg = mc.Run()
+		case "reducefn":
+			if !d.IsNum() {
+				continue
+			}
+			r := &C08Case{Op: "Reduce", DT: d.Name, A: Opnd{Shape: c.Shape, Codes: c.A, L: Layout{Root: "rm"}}, Axes: c.Axes, Via: "method"}
+			c08Last = Arr{}
+			msg = r.Run()
+			if msg == "" && c08Last.E != nil {
+				rr := c08Last
+				res = &rr
+			}
 		}
 		if msg == inconclusive {
 			continue
@@ -286,6 +310,18 @@ func genC17(rt *rapid.T, fam, op, form, mode string, same, iter bool) *C17Case {
 		c.A = draw(0, 6, "a")
 	case "maskpred":
 		c.A, c.Lo, c.Hi = draw(0, 5, "a"), rapid.Int64Range(0, 3).Draw(rt, "lo"), rapid.Int64Range(3, 5).Draw(rt, "hi")
+	case "write":
+		c.A, c.Scalar = draw(0, 30, "a"), rapid.Int64Range(0, 40).Draw(rt, "code")
+		if shape[0] == 1 && len(shape) == 1 {
+			c.Shape = []int{2}
+			c.A = []int64{1, 2}
+		}
+	case "mat64":
+		c.Shape = []int{rapid.IntRange(1, 3).Draw(rt, "r"), rapid.IntRange(1, 3).Draw(rt, "cc")}
+		c.A = genCodes(rt, prod(c.Shape), 0, 60, 0, "a")
+	case "reducefn":
+		c.A = draw(0, 3, "a")
+		c.Axes = []int{rapid.IntRange(0, len(shape)-1).Draw(rt, "axis")}
 	case "native", "getset":
 		if len(shape) > 3 {
 			shape = shape[:3]
@@ -376,6 +412,24 @@ func TestC17(t *testing.T) {
 		}
 	}
 	cell(t, "C17", "C17.xtype", "native", nCases(20, 300), func(rt *rapid.T) Case { return genC17(rt, "native", "Native", "", "", false, false) })
+	for _, w := range []string{"Memset", "Zero", "SetAtSweep", "CopyInto"} {
+		for _, iter := range []bool{false, true} {
+			w, iter := w, iter
+			if w == "CopyInto" {
+				continue // needs a source operand per type: covered by C04
+			}
+			cell(t, "C17", "C17.xtype", fmt.Sprintf("write/%s/iter=%v", w, iter), nCases(6, 80), func(rt *rapid.T) Case {
+				return genC17(rt, "write", w, "", "", false, iter)
+			})
+		}
+	}
+	for _, iter := range []bool{false, true} {
+		iter := iter
+		cell(t, "C17", "C17.xtype", fmt.Sprintf("mat64/iter=%v", iter), nCases(10, 100), func(rt *rapid.T) Case {
+			return genC17(rt, "mat64", "ToMat64", "", "", false, iter)
+		})
+	}
+	cell(t, "C17", "C17.xtype", "reducefn", nCases(20, 200), func(rt *rapid.T) Case { return genC17(rt, "reducefn", "Reduce", "", "", false, false) })
 	for _, iter := range []bool{false, true} {
 		iter := iter
 		cell(t, "C17", "C17.xtype", fmt.Sprintf("getset/iter=%v", iter), nCases(10, 100), func(rt *rapid.T) Case {
